@@ -2,7 +2,10 @@
 (* Trace validation for C07 against GEMapping: TLC-generated interleavings of mapping calls with other
    uses of the shared random source, replayed on the real genotype-based representations.
    Event map [gid, rep, prog, draws_before, draws_after, genes_before, genes_after, exc]
-   (genes as a sequence over a common key order of [has, g], rank-encoded). *)
+   (genes as a sequence over a common key order of [has, g], rank-encoded).
+   gid names THE GENOTYPE: for ge / sge / stack that is the gene content (two objects with equal genes, mapped by
+   any representation object of the grammar, are one genotype); for dsge, whose mapping extends the genes from the
+   shared source, it is the object. *)
 EXTENDS GEMeta, TraceKit
 
 Get(f, k, d) == IF k \in DOMAIN f THEN f[k] ELSE d
